@@ -19,6 +19,23 @@ def chunk_parent(S, name="chunk"):
     return S.e.call(f, [text, "chr1", cs, ce], {}), cs, ce
 
 
+def chunk_parent_stranded(S, name="chunk"):
+    """seq_chunk_to_parent(text, "chr1", cs, ce, strand): a chunk that may sit on the MINUS strand of the chromosome
+    (its text is then the reverse complement of the chromosome stretch; chunk position x is chromosome position
+    ce-1-x and strands flip).  Returns (parent, cs, ce, minus) with ``minus`` a Python bool (case split)."""
+    cs, ce = S.int(name + "_start"), S.int(name + "_end")
+    text = S.symstr(name + "_seq")
+    st = S.enum(STRAND, name + "_strand")
+    S.assume(And(0 <= cs, cs <= ce, slen(text) == ce - cs, Not(is_unstranded(st))))
+    if S.mode == "sym":
+        st = S.e.enum_concretize(st)
+    minus = (st.members[st.idx][0] if hasattr(st, "members") else st.name) == "MINUS"
+    f = S.fn("io.parser.seq_chunk_to_parent")
+    if S.mode == "native":
+        return f(text, "chr1", cs, ce, st), cs, ce, minus
+    return S.e.call(f, [text, "chr1", cs, ce, st], {}), cs, ce, minus
+
+
 def sample_chunk(rng, name="chunk", lo=0, hi=14):
     cs = rng.randint(lo, hi)
     ce = cs + rng.randint(0, 10)
@@ -60,6 +77,109 @@ class LiftToChunk(Case):
         from .c02_single import obs_loc
         o = obs_loc(r)
         return o[:3]
+
+
+def _flip(strand_val):
+    """strand of a location seen from a MINUS chunk."""
+    return strand_val
+
+
+def _same_strand(r, strand, flipped):
+    """r.strand equals ``strand`` (flipped: its reverse; UNSTRANDED is its own reverse)."""
+    if hasattr(r.strand, "idx"):
+        v = enum_value(r.strand)
+        w = enum_value(strand)
+    else:
+        v, w = r.strand.value, strand.value
+    return v == (-w if flipped else w)
+
+
+class LiftToStrandedChunk(Case):
+    """chromosome location -> chunk that may lie on the MINUS strand: restriction to the chunk, mirrored
+    (x -> ce-1-x) and strand-reversed when the chunk is reverse-complemented."""
+    props = ("C04", "C07")
+    name = "AbstractInterval.liftover_location_to_seq_chunk_parent[single block -> chunk on either strand]"
+    func = AI + ".liftover_location_to_seq_chunk_parent"
+    module = "gene.interval"
+    call = ("(lambda r: (r, r.lift_over_to_first_ancestor_of_type(SequenceType.CHROMOSOME) "
+            "if r is not EmptyLocation() else None))"
+            "(AbstractInterval.liftover_location_to_seq_chunk_parent(loc, chunk))")
+    raises = {"NullSequenceException": lambda i: i.cs == i.ce}
+    ensures = {
+        "empty-iff-no-base-in-chunk": lambda i, r: Iff(class_name(r[0]) == "_EmptyLocation",
+                                                       Not(Max(i.s, i.cs) < Min(i.e, i.ce))),
+        "restriction-in-chunk-coordinates": lambda i, r: class_name(r[0]) == "_EmptyLocation" or And(
+            class_name(r[0]) == "SingleInterval",
+            r[0].start == (i.ce - Min(i.e, i.ce) if i.minus else Max(i.s, i.cs) - i.cs),
+            r[0].end == (i.ce - Max(i.s, i.cs) if i.minus else Min(i.e, i.ce) - i.cs)),
+        "strand-composed-with-the-chunk-strand": lambda i, r: class_name(r[0]) == "_EmptyLocation" or _same_strand(
+            r[0], i.loc.strand, i.minus),
+        "round-trip-is-the-restriction": lambda i, r: class_name(r[0]) == "_EmptyLocation" or And(
+            class_name(r[1]) == "SingleInterval", r[1].start == Max(i.s, i.cs), r[1].end == Min(i.e, i.ce),
+            _same_strand(r[1], i.loc.strand, False)),
+    }
+
+    def inputs(self, S):
+        loc = single(S, "loc")
+        chunk, cs, ce, minus = chunk_parent_stranded(S)
+        return NS(loc=loc, chunk=chunk, s=loc.start, e=loc.end, cs=cs, ce=ce, minus=minus,
+                  EmptyLocation=S.fn("location.location_impl.EmptyLocation"))
+
+    def samples(self, rng):
+        s = rng.randint(0, 16)
+        d = dict(loc_start=s, loc_end=s + rng.randint(0, 8), loc_strand=rng.choice(["PLUS", "MINUS", "UNSTRANDED"]))
+        d.update(sample_chunk(rng))
+        d["chunk_strand"] = rng.choice(["PLUS", "MINUS"])
+        return d
+
+    def observe(self, r):
+        from .c02_single import obs_loc
+        return [obs_loc(r[0])[:3], obs_loc(r[1])[:3] if r[1] is not None else None]
+
+
+class LiftStrandedChunkToChunk(Case):
+    """a location on chunk A, lifted onto chunk B covering the same chromosome (either strand each): always through
+    chromosome coordinates - the result is the part of the ORIGINAL chromosome location inside both chunks, expressed
+    in B's coordinates and strand (in particular for two chunks with the SAME id 'chr1:cs-ce' but opposite strands)."""
+    props = ("C04", "C07")
+    name = "AbstractInterval.liftover_location_to_seq_chunk_parent[chunk A -> chunk B, either strand each]"
+    func = AI + ".liftover_location_to_seq_chunk_parent"
+    module = "gene.interval"
+    call = ("AbstractInterval.liftover_location_to_seq_chunk_parent("
+            "AbstractInterval.liftover_location_to_seq_chunk_parent(loc, chunk_a), chunk_b)")
+    ensures = {
+        "restriction-to-both-chunks-in-B-coordinates": lambda i, r: If(
+            i.lo < i.hi,
+            And(class_name(r) == "SingleInterval",
+                r.start == (i.be - i.hi if i.bminus else i.lo - i.bs),
+                r.end == (i.be - i.lo if i.bminus else i.hi - i.bs),
+                _same_strand(r, i.loc.strand, i.bminus)) if class_name(r) == "SingleInterval" else False,
+            class_name(r) == "_EmptyLocation"),
+    }
+
+    def inputs(self, S):
+        loc = single(S, "loc", directed=False)
+        a, as_, ae, aminus = chunk_parent_stranded(S, "a")
+        b, bs, be, bminus = chunk_parent_stranded(S, "b")
+        S.assume(And(as_ < ae, bs < be))
+        S.assume(Max(loc.start, as_) < Min(loc.end, ae))  # the location has a base on chunk A
+        lo, hi = Max(Max(loc.start, as_), bs), Min(Min(loc.end, ae), be)
+        return NS(loc=loc, chunk_a=a, chunk_b=b, lo=lo, hi=hi, bs=bs, be=be, bminus=bminus)
+
+    def samples(self, rng):
+        d = sample_chunk(rng, "a")
+        if rng.random() < 0.5:
+            d.update({"b_start": d["a_start"], "b_end": d["a_end"], "b_seq": d["a_seq"]})
+        else:
+            d.update(sample_chunk(rng, "b"))
+        s = rng.randint(0, 16)
+        d.update(loc_start=s, loc_end=s + rng.randint(1, 8), loc_strand=rng.choice(["PLUS", "MINUS"]),
+                 a_strand=rng.choice(["PLUS", "MINUS"]), b_strand=rng.choice(["PLUS", "MINUS"]))
+        return d
+
+    def observe(self, r):
+        from .c02_single import obs_loc
+        return obs_loc(r)[:3]
 
 
 class LiftRoundTrip(Case):
@@ -271,6 +391,7 @@ def _single_at(r, start, end):
     return And(r.start == start, r.end == end)
 
 
-CASES = [LiftToChunk(), LiftRoundTrip(), LiftChunkToChunk(), LiftNestedToChunk()]
+CASES = [LiftToChunk(), LiftRoundTrip(), LiftChunkToChunk(), LiftNestedToChunk(), LiftToStrandedChunk(),
+         LiftStrandedChunkToChunk()]
 CASES += [ChildLocationOfParent(n, via) for n in (1, 2) for via in (
     "constructor on a parent that already holds a location", "reverse_strand", "reset_strand", "shift_position")]
